@@ -1,4 +1,4 @@
-from planlib import geo, WRAP_FLAGS, WRAP_SRCS
+from planlib import geo, WRAP_FLAGS, WRAP_SRCS, desc_fuzz
 
 CALLS = ["vec_znx_normalize_base2k", "vec_znx_dft", "vec_znx_idft", "vec_znx_idft_tmp_a(source of dft)", "svp_prepare", "svp_apply_dft",
          "vmp_prepare_contiguous", "vmp_apply_dft", "vmp_apply_dft_to_dft", "znx_small_single_product", "vec_znx_big_normalize/range"]
@@ -29,6 +29,7 @@ PLAN = dict(
          "vec_znx_idft_tmp_a's a_dft and an operand that is the output buffer. Non-trivial: >=2 source operands or a prepared/table operand.",
     assumptions=["heap blocks of an object = blocks allocated (malloc/aligned_alloc/...) during its constructor call"],
     quick=_jobs("quick"), thorough=_jobs("thorough"),
+    fuzz=desc_fuzz("C18", fix=dict(k=(1, 10), logm=(0, 10))),
     required_classes=dict(all=["call:" + c for c in CALLS] + ["table:" + t for t in TABLES] +
                           ["module:NTT120", "cfg:generic", "aliased_output_other_source_checked", "sources:2", "placement:packed-up", "placement:packed-down"]),
 )
